@@ -171,12 +171,19 @@ def oracle(seed, tier):
             w = {"version": "1.1", "features": []}
             gl = G(rng, w)
             name = rng.choice(["mass conserving", "mass conserving", "plate model"])
-            dip = rng.choice([30, 45, 60]); L = rng.choice([400e3, 700e3]); th = rng.choice([100e3, 150e3])
-            v = rng.choice([0.02, 0.05, 0.08])
+            # incl. short slabs with long tapers (the taper starts above the coupling depth) and old, fast plates (cold slabs)
+            dip = rng.choice([30, 45, 60]); L = rng.choice([160e3, 240e3, 320e3, 400e3, 700e3]); th = rng.choice([100e3, 150e3])
+            v = rng.choice([0.02, 0.05, 0.08, 0.15])
+            cold_short = name == "mass conserving" and (wi // 4) % 2 == 1
+            if cold_short:
+                # the structured corner: a short slab with a long taper that starts above the coupling depth, old and fast (cold); probed around the start of the taper
+                L = rng.choice([160e3, 240e3, 320e3]); v = rng.choice([0.08, 0.15])
             if name == "mass conserving":
                 m = {"model": "mass conserving", "min distance slab top": -100e3, "max distance slab top": 1.5 * th, "spreading velocity": v, "subducting velocity": v,
-                     "ridge coordinates": [[[-3000e3, -rng.choice([500e3, 2000e3, 4000e3])], [3000e3, -rng.choice([500e3, 2000e3, 4000e3])]]], "coupling depth": rng.choice([80e3, 100e3]),
-                     "taper distance": rng.choice([50e3, 100e3]), "reference model name": rng.choice(["half space model", "plate model"]), "adiabatic heating": rng.random() < 0.8}
+                     "ridge coordinates": [[[-3000e3, -rng.choice([500e3, 2000e3, 4000e3, 8000e3])], [3000e3, -rng.choice([500e3, 2000e3, 4000e3, 8000e3])]]], "coupling depth": rng.choice([80e3, 100e3, 120e3]),
+                     "taper distance": rng.choice([50e3, 100e3, 150e3, 300e3]), "reference model name": rng.choice(["half space model", "plate model"]), "adiabatic heating": rng.random() < 0.8}
+                if cold_short:
+                    m["ridge coordinates"] = [[[-3000e3, -8000e3], [3000e3, -8000e3]]]; m["coupling depth"] = rng.choice([100e3, 120e3]); m["taper distance"] = rng.choice([150e3, 300e3])
                 seg = {"length": L, "thickness": [1.5 * th], "top truncation": [-100e3], "angle": [dip]}
                 tlo, thi = -95e3, 1.45 * th
             else:
@@ -187,8 +194,13 @@ def oracle(seed, tier):
             w["features"].append({"model": "subducting plate", "name": "s", "coordinates": [[-1500e3, 0], [1500e3, 0]], "dip point": [0, 1e7], "segments": [seg], "temperature models": [m]})
             th_r = math.radians(dip)
             pts = []
-            for _ in range(40):
+            for k in range(40 if not cold_short else 230):
                 s = rng.uniform(5e3, L - 5e3); t = rng.uniform(tlo, thi)
+                if cold_short and k >= 30:
+                    s0 = max(5e3, L - m["taper distance"])
+                    # the slab's cold core (a few km below its top) in the first kilometres of the taper: where a minimum temperature computed for the taper
+                    # meets the one computed above the coupling depth
+                    s = min(L - 5e3, max(5e3, s0 + rng.uniform(0, 6e3))); t = rng.uniform(0, 12e3)
                 y, d = s * math.cos(th_r) - t * math.sin(th_r), s * math.sin(th_r) + t * math.cos(th_r)
                 if d > 1e3:
                     pts.append(([rng.uniform(-800e3, 800e3), y], d))
@@ -201,7 +213,9 @@ def oracle(seed, tier):
                 amb = gl.adiabat(d)
                 if v_ != amb:
                     nontriv += 1
-                if not (tsurf - 1e-6 <= v_ <= max(amb, gl.adiabat(d)) + 1e-6):
+                # the slab model adds and removes its anomaly from the ambient value (heat content arithmetic): where the anomaly has vanished the result equals the
+                # adiabat up to a few ulps of 2000 K (observed: 3e-6 K): relative 1e-8
+                if not (tsurf - 2e-5 <= v_ <= max(amb, gl.adiabat(d)) + 2e-5):
                     viol.append({"what": "slab %s: temperature %.9g at depth %.6g outside [surface temperature %.6g, max(ambient, adiabat) %.9g]" % (name, v_, d, tsurf, amb),
                                  "world_json": w, "world": path, "cmd": info[k + 1], "probe": "slab-" + name.replace(" ", "-") + "-envelope"})
                     break
@@ -213,6 +227,8 @@ def oracle(seed, tier):
 def correspondence(seed, tier):
     n = budget(tier, 25, 300)
     rs = [corr.run_corr(seed * 1000 + 200 + k, "C20_%d" % k, n, 25, {"with_random": False, "with_lines": True, "allow": ["oceanic plate", "oceanic plate", "continental plate", "mantle layer", "subducting plate", "fault"], "slab_models": 0.5}) for k in range(budget(tier, 1, 3))]
+    # slabs only, mostly with the slab-only temperature models (mass conserving incl. short slabs / long tapers, plate model)
+    rs += [corr.run_corr(seed * 1000 + 207 + k, "C20_slab_%d" % k, max(40, n // 2), 40, {"with_random": False, "with_lines": True, "allow": ["subducting plate"], "slab_models": 0.8}) for k in range(budget(tier, 1, 3))]
     # the structured cooling-model worlds of the oracle (other seed; every third with the model's max depth a depth surface), model vs library bit for bit
     rng = random.Random(seed * 9176 + 201)
     wdir = proto.workdir("C20_struct")
